@@ -211,7 +211,7 @@ THOROUGH = ["getset_fault", _reg(Getset("T_names3", 3, "names")).name, "prefix",
 from harness import cli_create as _cc
 for _n in ['T_create_two_t2_p1', 'T_create_two_t3', 'create_pan_t1', 'create_pan_t2', 'create_two_t1', 'create_two_t2']:
     INSTANCES[_n] = _cc.INSTANCES[_n]
-QUICK += ['create_two_t1', 'create_two_t2', 'create_pan_t1']; THOROUGH += ['create_two_t1', 'create_pan_t2', 'T_create_two_t2_p1', 'T_create_two_t3']
+QUICK += ['create_two_t1', 'create_two_t2', 'create_pan_t1']; THOROUGH += ['create_two_t1', 'create_two_t2', 'create_pan_t1', 'create_pan_t2']
 
 
 def run(ctx):
